@@ -364,6 +364,7 @@ package protocol
 //@   option noframe
 //@   option only pre make alloc slice index overflow
 //@   option overflow
+//@   unproved overflow@"return pb.length - pb.cursor" the page buffer keeps 0 <= cursor <= length; that invariant of pageBuffer is not under contract here (Len is executed in place)
 //@   option upto "for i := range records {"
 //@   option allocbound recordsLength
 //@   modifies heap
